@@ -45,7 +45,8 @@ class Observation:
 
 
 class Harness:
-    def __init__(self, dec, rec, clock=None, disk=None, ray=None, snapshot_klist=True, on_iteration=None):
+    def __init__(self, dec, rec, clock=None, disk=None, ray=None, snapshot_klist=True, on_iteration=None,
+                 extra_patches=()):
         self.dec, self.rec = dec, rec
         self.clock = clock or VClock()
         self.disk = disk
@@ -53,6 +54,7 @@ class Harness:
         self.obs = Observation()
         self.snapshot_klist = snapshot_klist
         self.on_iteration = on_iteration
+        self.extra_patches = list(extra_patches)   # (obj, name, factory(original, harness) -> replacement)
         self._saved = []
 
     # ------------------------------------------------------------------ install / uninstall
@@ -120,6 +122,9 @@ class Harness:
             return r
 
         self._patch(_rd.ResultDict, "savedata", savedata)
+        for obj, name, factory in self.extra_patches:
+            orig = obj.__dict__[name] if isinstance(obj, type) else getattr(obj, name)
+            self._patch(obj, name, factory(orig, self))
         return self
 
     def __exit__(self, *a):
